@@ -917,7 +917,9 @@ func allKinds() []*kind {
 			return cTup(cN(i.RequestID), cB(i.DestIP), cN(uint64(i.TTL)), cIDs(i.RemainingPath), cB(i.EphemeralPubKey[:]))
 		}))
 	add(simple("ICMPOpenAck",
-		func(r *vh.Rand, over bool) any { return &protocol.ICMPOpenAck{RequestID: gU64(r), EphemeralPubKey: gKey(r)} },
+		func(r *vh.Rand, over bool) any {
+			return &protocol.ICMPOpenAck{RequestID: gU64(r), EphemeralPubKey: gKey(r)}
+		},
 		func(m any) ([]byte, error) { return ok(m.(*protocol.ICMPOpenAck).Encode()) },
 		func(b []byte) (any, error) {
 			s, err := protocol.DecodeICMPOpenAck(b)
